@@ -123,8 +123,13 @@ func parseNumber(buf []byte) (id, val uint64) {
 		floatTag |= uint64(FloatOverflowedInteger)
 	}
 
-	if pos > 1 && buf[0] == '0' && isNumberRune[buf[1]]&isFloatOnlyFlag == 0 {
-		// Float can only have have a leading 0 when followed by a period.
+	// Float can only have have a leading 0 when followed by a period or exponent.
+	// Skip the optional minus sign before testing.
+	lz := 0
+	if buf[0] == '-' {
+		lz = 1
+	}
+	if pos > lz+1 && buf[lz] == '0' && isNumberRune[buf[lz+1]]&isFloatOnlyFlag == 0 {
 		return 0, 0
 	}
 	f64, err := strconv.ParseFloat(unsafeBytesToString(buf[:pos]), 64)
